@@ -180,6 +180,51 @@ def _const_range_of_array(f, line):
     return found
 
 
+def _unreached_panic_lines(fx, f):
+    """lines of panic constructs in f that no enumerated path reaches; None when the enumeration is not possible"""
+    import itertools
+    doms = []
+    for q in f.params:
+        ty = (q.get("ty") or "").lstrip("&").strip()
+        adt = None
+        for c in fx.crates.values():
+            adt = adt or c.adts.get(ty)
+        if adt is not None and adt.get("kind") == "enum" and adt["variants"] and not any(v.get("fields") for v in adt["variants"]):
+            doms.append([H.V("%s::%s" % (ty, v["name"]), ()) for v in adt["variants"]])
+        else:
+            doms.append([H.Sym("param", (q["name"],))])
+    n = 1
+    for d in doms:
+        n *= len(d)
+    if n > 64 or f.hir is None:
+        return None
+    reached = set()
+    lines = set()
+    for node in H._walk_nodes(f.hir):
+        pass
+    for combo in itertools.product(*doms):
+        ev = H.Evaluator(fx)
+        ev.inline = lambda p: False
+        try:
+            paths = ev.paths(f, list(combo), max_paths=256)
+        except (H.Budget, H.Panic):
+            return None
+        if ev.lossy:
+            return None
+        for dec, res, tr in paths:
+            if isinstance(res, H.Panic):
+                reached.add(res.line)
+            else:
+                for x in walk(res):
+                    if isinstance(x, H.Sym) and x.what == "panic" and len(x.parts) > 1:
+                        reached.add(x.parts[1])
+
+    class Dead:
+        def __contains__(self, line):
+            return line not in reached
+    return Dead()
+
+
 def main(tier):
     run, fx = start("C03", tier)
     rs = fx["temporal_rs"]
@@ -220,11 +265,50 @@ def main(tier):
         if k not in present and "/" in k:
             pth, rest = k.rsplit("/", 1)
             orphans.setdefault((fam(pth), rest.split("#", 1)[0]), []).append(k)
+    # a function that has MORE constructs of a kind than reviewed entries gained one (an `unreachable!()` in an inner match
+    # whose outer arm already excludes the case): each surplus site is tried by finite enumeration - the function folded
+    # along every path for every valuation of its fieldless-enum parameters, everything else opaque; a site no path reaches
+    # is discharged, and the reviewed entries go, in order, to the sites that remain
+    enumerated = {}
+    by_fk = {}
+    for f, kind, ordinal, line, node in inv:
+        by_fk.setdefault((f.path, kind), []).append((ordinal, line, f))
+    shifted = {}
+    for (fpath, kind), sites in by_fk.items():
+        if not kind.startswith("panic:") or kind.startswith("panic:debug_assert") or fpath not in reach:
+            continue
+        have = sum(1 for k in review if k.rsplit("#", 1)[0] == "%s/%s" % (fpath, kind))
+        if have == 0 or len(sites) <= have or baseline.is_new(fpath):
+            continue
+        dead = _unreached_panic_lines(fx, sites[0][2])
+        if dead is None:
+            continue
+        keep = 0
+        for ordinal, line, f in sorted(sites):
+            if line in dead and len(sites) - len([1 for o, l, _ in sites if ("%s/%s#%d" % (fpath, kind, o)) in enumerated]) > have:
+                enumerated["%s/%s#%d" % (fpath, kind, ordinal)] = line
+            else:
+                keep += 1
+                shifted["%s/%s#%d" % (fpath, kind, ordinal)] = "%s/%s#%d" % (fpath, kind, keep)
+    # kinds that are the same construct written differently: `x.temporal_unwrap()?` IS `debug_assert!(x.is_some());
+    # x.ok_or(TemporalError::assert())?` - a reviewed site of one form keeps its review in the other form
+    SAME = {"assert-error": ("temporal_unwrap",), "temporal_unwrap": ("assert-error",)}
     adopted = {}
     for f, kind, ordinal, line, node in inv:
         k = "%s/%s#%d" % (f.path, kind, ordinal)
+        if k in enumerated:
+            continue
+        if k in shifted and shifted[k] != k:
+            if shifted[k] in review:
+                adopted[k] = shifted[k]
+            continue
         if k not in review and orphans.get((fam(f.path), kind)):
             adopted[k] = orphans[(fam(f.path), kind)].pop(0)
+        elif k not in review:
+            for alt in SAME.get(kind, ()):
+                if orphans.get((fam(f.path), alt)):
+                    adopted[k] = orphans[(fam(f.path), alt)].pop(0)
+                    break
     for f, kind, ordinal, line, node in inv:
         key = "%s/%s#%d" % (f.path, kind, ordinal)
         loc = "%s:%s" % (f.file, line)
@@ -247,7 +331,11 @@ def main(tier):
                 run.check(okf, rule, key, "list index guarded on every path (R8.index-guard)",
                           "index into a list without a dominating length check in %s" % f.name, loc)
                 continue
-        ent = review.get(key)
+        if key in enumerated:
+            run.ok(rule, key, "no path of %s reaches this construct for any valuation of its enum parameters (finite enumeration, "
+                   "callees opaque)" % f.name, loc)
+            continue
+        ent = review.get(key) if not (key in shifted and shifted[key] != key) else None
         if ent is None and key in adopted:
             ent = review[adopted[key]]
             used.add(adopted[key])
